@@ -121,7 +121,28 @@ func newLayMachine(c *Ctx) *layMachine {
 	in := newInterp(c)
 	in.MaxPaths = 400
 	m.in = in
-	in.Inline = func(o types.Object) bool { return o.Name() == "toType" }
+	in.Inline = func(o types.Object) bool {
+		if o.Name() == "toType" {
+			return true
+		}
+		// helpers that take an instruction sequence (e.g. an extracted placeholder-rewrite loop) are executed in place;
+		// the compiler's own recursive entry points stay opaque segments
+		fn, ok := o.(*types.Func)
+		if !ok || fn.Pkg() == nil || fn.Pkg().Path() != modPath {
+			return false
+		}
+		switch fn.Name() {
+		case "compile", "compileAll", "optimize", "doOptimize", "toData", "run", "compilePkgs":
+			return false
+		}
+		sig := fn.Type().(*types.Signature)
+		for i := 0; i < sig.Params().Len(); i++ {
+			if isInsSlice(sig.Params().At(i).Type()) {
+				return true
+			}
+		}
+		return false
+	}
 	in.NoReturn = func(o types.Object) bool { return o.Name() == "panicf" }
 	in.H.Call = m.call
 	in.H.Loop = m.loop
@@ -204,6 +225,9 @@ func (m *layMachine) post(in *Interp, st *State, e ast.Expr, t *T) *T {
 
 func (m *layMachine) call(in *Interp, st *State, call *ast.CallExpr, name string, recv *T, args []*T) *T {
 	c := m.c
+	if callee := c.Callee(call); callee != nil && in.Inline != nil && in.Inline(callee) {
+		return nil // executed in place by the interpreter
+	}
 	switch name {
 	case "builtin.len":
 		if atoms, ok := seqAtoms(args[0]); ok && (args[0].Op == "seq" || isInsSlice(c.TypeOf(call.Args[0]))) {
